@@ -80,6 +80,7 @@ fn main() {
                 after_clear: flag(&args, "--after-clear"),
                 with_capacity: arg(&args, "--with-capacity", "0").parse().unwrap(),
                 tracked: flag(&args, "--tracked"),
+                clone_bisim: flag(&args, "--clone-bisim"),
                 keep: arg(&args, "--keep", "3").parse().unwrap(),
             };
             let threads: usize = arg(&args, "--threads", "12").parse().unwrap();
